@@ -1976,3 +1976,79 @@ func c01IdxCallers(c *Ctx, fn *ssa.Function, construct string, in ssa.Instructio
 		c.bad(con, in.Pos(), short+": a shorter value panics")
 	}
 }
+
+// ---- C02.MAP: map order obtained without a range statement ----
+
+// c02MapIterators: maps.Keys / maps.Values / maps.All (and the slice-returning functions of golang.org/x/exp/maps) yield the
+// entries of a map in its iteration order without any `range` in the module. Their result may only be sorted
+// (slices.Sorted*), or collected (slices.Collect, the x/exp slice) and then sorted before any other use.
+func c02MapIterators(c *Ctx) {
+	p := c.P
+	for _, fn := range p.Funcs {
+		occ := map[string]int{}
+		eachInstr(fn, func(_ *ssa.BasicBlock, _ int, in ssa.Instruction) {
+			call, ok := in.(*ssa.Call)
+			if !ok {
+				return
+			}
+			name := calleeFullName(&call.Call)
+			if i := strings.Index(name, "["); i >= 0 {
+				name = name[:i]
+			}
+			switch name {
+			case "maps.Keys", "maps.Values", "maps.All", "golang.org/x/exp/maps.Keys", "golang.org/x/exp/maps.Values":
+			default:
+				return
+			}
+			occ[name]++
+			construct := fmt.Sprintf("%s|%s#%d", FuncName(fn), name, occ[name])
+			problem := ""
+			var follow func(v ssa.Value, isSlice bool, depth int)
+			follow = func(v ssa.Value, isSlice bool, depth int) {
+				if depth > 6 || v.Referrers() == nil {
+					return
+				}
+				var sortersAt, others []ssa.Instruction
+				for _, ref := range *v.Referrers() {
+					switch r := ref.(type) {
+					case *ssa.DebugRef:
+					case *ssa.ChangeType, *ssa.MakeInterface, *ssa.Convert, *ssa.Phi:
+						follow(r.(ssa.Value), isSlice, depth+1)
+					case ssa.CallInstruction:
+						n := calleeFullName(r.Common())
+						if i := strings.Index(n, "["); i >= 0 {
+							n = n[:i]
+						}
+						switch {
+						case n == "slices.Sorted" || n == "slices.SortedFunc" || n == "slices.SortedStableFunc":
+						case n == "slices.Collect" || n == "slices.AppendSeq":
+							if rv, ok := r.(ssa.Value); ok {
+								follow(rv, true, depth+1)
+							}
+						case isSlice && sorters[n]:
+							sortersAt = append(sortersAt, r)
+						case isSlice && (orderInsensitiveConsumers[n] || n == "builtin.len" || n == "builtin.cap"):
+						default:
+							others = append(others, r)
+						}
+					default:
+						others = append(others, ref)
+					}
+				}
+				if !isSlice && len(others) > 0 {
+					problem = fmt.Sprintf("the sequence is consumed at %s in the iteration order of the map", p.Pos(others[0].Pos()))
+					return
+				}
+				if why := checkSortedUses(p, v, sortersAt, others); why != "" && problem == "" {
+					problem = "the slice collected from the map " + why
+				}
+			}
+			follow(call, strings.HasPrefix(name, "golang.org/x/exp/"), 0)
+			if problem == "" {
+				c.ok(construct, call.Pos(), "the entries are sorted before anything else looks at them")
+			} else {
+				c.bad(construct, call.Pos(), problem+": the order of a map's entries differs from run to run")
+			}
+		})
+	}
+}
